@@ -150,6 +150,7 @@ func judgeBash(c *Check, bc BashCase) caseOutcome {
 	if bc.CheckFS && !rr.TimedOut {
 		want := map[string]string{}
 		for n, b := range ref.FS {
+			n = filepath.Clean(n)
 			want[n] = string(b)
 			for d := filepath.Dir(n); d != "." && d != "/"; d = filepath.Dir(d) {
 				want[d+"/"] = ""
